@@ -2,10 +2,14 @@ package main
 
 // Registry of checks: which harness runs on which configurations per tier.
 
-const nCoreTables = 37
+const nCoreTables = 42
 
-func curlyOnly(tbl int) bool { return tbl == 2 || tbl == 3 || tbl == 6 || tbl == 18 || tbl == 22 || tbl == 28 }
-func hasMedia(tbl int) bool  { return tbl == 8 || tbl == 9 || tbl == 32 || tbl == 33 || tbl == 34 }
+func curlyOnly(tbl int) bool {
+	return tbl == 2 || tbl == 3 || tbl == 6 || tbl == 18 || tbl == 22 || tbl == 28 || tbl == 37
+}
+func hasMedia(tbl int) bool {
+	return tbl == 8 || tbl == 9 || tbl == 32 || tbl == 33 || tbl == 34 || tbl == 40
+}
 
 var commonAssumptions = []string{
 	"symbolic bytes are ASCII (0x00-0x7f); non-ASCII input is outside the claim",
@@ -180,7 +184,7 @@ func properties() map[string]*propDef {
 		Items: func(tier string, seed int) []item {
 			var out []item
 			for tbl := 0; tbl < nCoreTables; tbl++ {
-				if tbl == 9 || tbl == 12 {
+				if tbl == 9 || tbl == 12 || tbl == 41 {
 					continue // duplicate (method, template) pair / root paths of the same shape: excluded by the statement
 				}
 				for router := 0; router < 2; router++ {
@@ -199,6 +203,9 @@ func properties() map[string]*propDef {
 							p += 100 // thorough bounds
 						}
 						out = append(out, item{Harness: "H_C03", Cfg: []int{tbl, router, p}})
+					}
+					if hasMedia(tbl) {
+						out = append(out, item{Harness: "H_C03", Cfg: []int{tbl, router, 1001}, Label: "header stage (concrete sample URLs; Content-Type, Accept symbolic), routes registered in reverse order"})
 					}
 				}
 			}
@@ -546,12 +553,12 @@ func properties() map[string]*propDef {
 				pre = 3
 			}
 			for prov := 0; prov < 3; prov++ {
-				for kind := 0; kind < 5; kind++ {
+				for kind := 0; kind < 7; kind++ {
 					for _, nt := range threads {
 						if nt == 3 && kind >= 3 {
 							continue
 						}
-						out = append(out, item{Harness: "H_C13_sched", Cfg: []int{prov, nt, kind, pre}, Label: "interleaving exploration: provider, threads, kind (gzip writer, zlib writer, gzip reader: acquire-work-release; 3/4: encoded responses through a container, gzip/deflate), preemption bound"})
+						out = append(out, item{Harness: "H_C13_sched", Cfg: []int{prov, nt, kind, pre}, Label: "interleaving exploration: provider, threads, kind (gzip writer, zlib writer, gzip reader: acquire-work-release; 3/4: encoded responses through a container via Dispatch, gzip/deflate; 5/6: via ServeHTTP), preemption bound"})
 					}
 				}
 			}
@@ -569,7 +576,7 @@ func properties() map[string]*propDef {
 			return out
 		},
 		Bounds: map[string]interface{}{"threads": "2 (thorough 3), each Acquire then Release once", "cache_capacity": "0..2", "initial_fill": "0..capacity",
-			"sequential": "ledger provider around the real providers on every C07 outcome kind and on two consecutive ReadEntity calls",
+			"sequential":    "ledger provider around the real providers on every C07 outcome kind and on two consecutive ReadEntity calls",
 			"interleavings": "H_C13_sched: 2 (thorough 3) threads using a provider through the ledger, or 2 encoded responses in flight; context switches at every provider call and lock acquisition, <= 2 (thorough 3) preemptions"},
 		Assumptions: append([]string{"event-order encoding: each thread body runs alone in recording mode; channel operations get symbolic results that the schedule formula constrains (len = initial + sends before - receives before; send enabled iff below capacity); timestamps are 8-bit vectors",
 			"the Go memory model is not modelled: channel operations are atomic events", "sync.Pool is a multiset stub (its internals are trusted); SyncPoolCompessors is only covered sequentially",
